@@ -170,11 +170,28 @@ def run(cx):
         cx.check('C11.S1', ok, se_.path, 'call', 'error_msg(request queries, request metadata, rcode)', em[0].term[:220] if em else 'none')
     # ---------------------------------------------------------------- G1 longest-suffix search
     fd = cx.fn('C11.G1', S + 'zone_handler::catalog::Catalog::find')
+    iterative = False
     if fd:
         r = cx.returns(fd, r'.')
         ok = len(r) == 1 and bool(re.search(r'^Option::or_else\(HashMap::get\(arg1\.handlers,arg2\),closure:Catalog::find::\{closure@or_else#0\}\)$', r[0].term))
-        cx.check('C11.G1', ok, fd.path, 'ret', 'exact-name-first-then-parent', '; '.join(s.term[:160] for s in r))
-    fc = cx.fn('C11.G1', S + 'zone_handler::catalog::Catalog::find::{closure@or_else#0}')
+        if not ok and not cx.prog.fn(S + 'zone_handler::catalog::Catalog::find::{closure@or_else#0}'):
+            # the same search written as a loop: try the name, then walk up one label at a time until a zone is found or the root was tried
+            iterative = True
+            CUR = r'phi\((<LowerName as Clone>::clone\(arg2\)|arg2)\|LowerName::base_name\(rec\(_\d+\)\)\)'
+            hits = [x for x in r if re.fullmatch(r'Option::Some\(HashMap::get\(arg1\.handlers,(arg2|' + CUR + r'|LowerName::base_name\(' + CUR + r'\))\)@Some\.0\)', x.term)]
+            none = [x for x in r if x.term == 'Option::None']
+            cx.check('C11.G1', len(hits) >= 2 and len(none) == 1 and len(hits) + len(none) == len(r), fd.path, 'ret', 'exact-name-first-then-parent(loop form)', '; '.join(s_.term[:120] for s_ in r))
+            first = [x for x in hits if re.fullmatch(r'Option::Some\(HashMap::get\(arg1\.handlers,arg2\)@Some\.0\)', x.term)]
+            cx.check('C11.G1', len(first) == 1, fd.path, 'ret', 'exact-name-tried-first', str(len(first)))
+            for x in hits:
+                if x not in first:
+                    cx.check('C11.G1', cx.has_guard(x, r'^!ok\(HashMap::get\(arg1\.handlers,arg2\)\)$'), fd.path, x.key(), 'parent-only-after-the-exact-name-missed', x.term[:100], x.loc)
+            cx.guard('C11.G1', none, {'only-at-root': r'^LowerName::is_root\(' + CUR + r'\)$'}, expect=1, fn=fd)
+            step = [x for x in cx.calls(fd, r'LowerName::base_name$') if re.fullmatch(r'LowerName::base_name\(' + CUR + r'\)', x.term)]
+            cx.guard('C11.G1', step, {'not-root': r'^!LowerName::is_root\(' + CUR + r'\)$'}, expect=1, fn=fd)
+        else:
+            cx.check('C11.G1', ok, fd.path, 'ret', 'exact-name-first-then-parent', '; '.join(s.term[:160] for s in r))
+    fc = cx.fn('C11.G1', S + 'zone_handler::catalog::Catalog::find::{closure@or_else#0}') if not iterative else None
     if fc:
         rec = cx.returns(fc, r'^Catalog::find\(')
         cx.guard('C11.G1', rec, {'not-root': r'^!LowerName::is_root\(\^arg2\)$'}, expect=1, fn=fc)
